@@ -180,6 +180,20 @@ def getToken (s : Bytes) (source : Nat) : Except Fault (Option (Nat × List UInt
 
 def dash : List UInt8 := [45]
 
+/-- the first token of `get_range`: an address unless it is "-".  `none` = return -1; else `*start` and the token
+that follows (`some` "-" again when the first token was the dash). -/
+def rangeFirst (needDigit : Bool) (lookup : List UInt8 → Option Nat) (bpa : Nat) (s : Bytes) (t1 : Nat) (d1 : List UInt8) :
+    Except Fault (Option (Nat × Option (Nat × List UInt8))) :=
+  if d1 = dash then .ok (some (0, some (t1, d1)))
+  else
+    match getAddress needDigit lookup bpa d1.toArray 0 with
+    | .error e => .error e
+    | .ok (none, _) => .ok none
+    | .ok (some _, a) =>
+      match getToken s t1 with
+      | .error e => .error e
+      | .ok tok => .ok (some (a, tok))
+
 /-- `get_range(text, &start, &end)`: `(return value, start, end)`; `high` = `memory.high_address`.
 `get_address` is called on the token (a string of its own). -/
 def getRange (needDigit : Bool) (lookup : List UInt8 → Option Nat) (bpa high : Nat) (s : Bytes) : Except Fault (Int × Nat × Nat) :=
@@ -187,18 +201,7 @@ def getRange (needDigit : Bool) (lookup : List UInt8 → Option Nat) (bpa high :
   | .error e => .error e
   | .ok none => .ok (-1, 0, 0)
   | .ok (some (t1, d1)) =>
-    -- first token: an address unless it is "-"
-    let first : Except Fault (Option (Nat × Option (Nat × List UInt8))) :=
-      if d1 = dash then .ok (some (0, some (t1, d1)))
-      else
-        match getAddress needDigit lookup bpa d1.toArray 0 with
-        | .error e => .error e
-        | .ok (none, _) => .ok none
-        | .ok (some _, a) =>
-          match getToken s t1 with
-          | .error e => .error e
-          | .ok tok => .ok (some (a, tok))
-    match first with
+    match rangeFirst needDigit lookup bpa s t1 d1 with
     | .error e => .error e
     | .ok none => .ok (-1, 0, 0)       -- note: `*start` may have been written; the caller ignores it on -1
     | .ok (some (start, none)) => .ok (0, start, start)
